@@ -21,10 +21,6 @@ Definition carried (t : target) (l : str) : Prop :=
 
 Definition carries_label (t : target) (p : str) : Prop := exists l, carried t l /\ label_matches p l.
 
-(* what the code does instead (the listed finding): the implicit `test` label is only seen by the exact label *)
-Definition carries_label_exact (t : target) (p : str) : Prop :=
-  (exists l, In l (t_labels t) /\ label_matches p l) \/ (t_test t = true /\ p = s "test").
-
 (* a group is a comma separated list of labels *)
 Fixpoint join_comma (pieces : list str) : str :=
   match pieces with
@@ -36,9 +32,9 @@ Fixpoint join_comma (pieces : list str) : str :=
 Definition is_group (g : str) (pieces : list str) : Prop :=
   pieces <> [] /\ Forall (fun p => ~ In COMMA p) pieces /\ join_comma pieces = g.
 
-(* a target carries a group when it carries every label of the group; parametric in "carries a label" *)
-Definition carries_group_gen (cl : target -> str -> Prop) (t : target) (g : str) : Prop :=
-  exists pieces, is_group g pieces /\ Forall (cl t) pieces.
+(* a target carries a group when it carries every label of the group *)
+Definition carries_group (t : target) (g : str) : Prop :=
+  exists pieces, is_group g pieces /\ Forall (carries_label t) pieces.
 
 (* an --exclude argument is a build expression when it looks like a build label *)
 Definition is_expression (x : str) : Prop :=
@@ -53,18 +49,15 @@ Definition denotes (e that : label) : Prop :=
 
 (* THE RULE: selected <-> (no include given, or some include group carried) and no exclude group carried and no
    exclude expression denotes the target. *)
-Definition selected_gen (cl : target -> str -> Prop) (include exclude : list str) (t : target) : Prop :=
-  (include = [] \/ exists g, In g include /\ carries_group_gen cl t g)
-  /\ (forall x, In x exclude -> ~ is_expression x -> ~ carries_group_gen cl t x)
+Definition selected (include exclude : list str) (t : target) : Prop :=
+  (include = [] \/ exists g, In g include /\ carries_group t g)
+  /\ (forall x, In x exclude -> ~ is_expression x -> ~ carries_group t x)
   /\ (forall x e, In x exclude -> is_expression x -> parse_exclude x = Some e -> ~ denotes e (t_label t)).
 
-Definition selected := selected_gen carries_label.              (* as documented *)
-Definition selected_exact := selected_gen carries_label_exact.  (* what the code computes *)
-
 (* some --exclude argument covers the target *)
-Definition excluded_gen (cl : target -> str -> Prop) (exclude : list str) (t : target) : Prop :=
+Definition excluded (exclude : list str) (t : target) : Prop :=
   exists x, In x exclude /\
-    ((~ is_expression x /\ carries_group_gen cl t x)
+    ((~ is_expression x /\ carries_group t x)
      \/ (is_expression x /\ exists e, parse_exclude x = Some e /\ denotes e (t_label t))).
 
 (* the packages a pseudo label ranges over *)
@@ -78,21 +71,7 @@ Definition wf_graph (g : graph) : Prop :=
   /\ forall p, In p g -> NoDup (map t_name (p_targets p)) /\ forall t, In t (p_targets p) -> t_pkg t = p_name p.
 
 (* the documented selection for one requested :all or /... label *)
-Definition in_selection_gen (cl : target -> str -> Prop) (include exclude : list str) (g : graph) (l : label)
+Definition in_selection (include exclude : list str) (g : graph) (l : label)
            (just_tests : bool) (lbl : label) : Prop :=
   exists p t, In p g /\ covers l (p_name p) /\ In t (p_targets p) /\ t_label t = lbl
-              /\ (just_tests = true -> t_test t = true) /\ selected_gen cl include exclude t.
-
-(* ---- the defect classifier (executable) ---------------------------------------------------------------- *)
-
-(* a wildcard label whose stem is a prefix of "test", on a test target none of whose declared labels it matches *)
-Definition wildcard_hits_implicit (t : target) (p : str) : bool :=
-  t_test t && has_suffix p [STAR] && has_prefix (removelast p) (s "test") && negb (any_match p (t_labels t)).
-
-Definition label_groups (include exclude : list str) : list str :=
-  include ++ filter (fun x => negb (looks_like_label x)) exclude.
-
-Definition defect_class (include exclude : list str) (t : target) : option string :=
-  if existsb (fun g => existsb (wildcard_hits_implicit t) (group g)) (label_groups include exclude)
-  then Some "wildcard-misses-implicit-test-label"%string
-  else None.
+              /\ (just_tests = true -> t_test t = true) /\ selected include exclude t.
